@@ -21,6 +21,10 @@ import (
 type C20Case struct {
 	World   procsim.World `json:"world"`
 	Wrapper string        `json:"wrapper"` // stubb (bklb via symlink) | kubectl-bkl
+	// Rival: the argument vector of a second invocation of the same wrapper
+	// (same name, same TMPDIR) that runs to completion — and fails — while the
+	// first one's wrapped program has started but not yet read its files
+	Rival []string `json:"rival_invocation,omitempty"`
 	Args    []string      `json:"args"`
 	Fault   string        `json:"fault,omitempty"`
 	FaultOn string        `json:"fault_on,omitempty"`
@@ -124,6 +128,16 @@ func genC20(r *gen.Rand) *C20Case {
 			c.Args = append(c.Args, gen.PickAny(r, pass))
 		}
 	}
+	if r.Chance(0.06) {
+		for k := 0; k < r.Range(1, 3); k++ {
+			c.Rival = append(c.Rival, gen.PickAny(r, good))
+		}
+		c.Rival = append(c.Rival, gen.PickAny(r, failing))
+		if r.Chance(0.5) {
+			c.Rival = append(c.Rival, gen.PickAny(r, good))
+		}
+		return c
+	}
 	// at most one fault, on a layer of one file argument
 	if r.Chance(0.3) {
 		switch r.Intn(6) {
@@ -172,6 +186,7 @@ type c20Obs struct {
 	Resolvable int  `json:"-"`
 	RefFailed  bool `json:"-"`
 	Fired      bool `json:"-"`
+	RivalRan   bool `json:"rival_invocation_ran,omitempty"`
 }
 
 func judgeC20(e *Env, c *C20Case, tag string, run int64) (*c20Obs, error) {
@@ -252,7 +267,59 @@ func judgeC20(e *Env, c *C20Case, tag string, run int64) (*c20Obs, error) {
 	if c.Wrapper == "kubectl-bkl" {
 		tool = "kubectl-bkl"
 	}
-	out, err := runInv(e, root, tool, inv)
+	var out *procsim.Outcome
+	var err error
+	if len(c.Rival) > 0 {
+		// two parties: A's wrapped program records its argv and then waits at
+		// the gate; B (same wrapper name, same TMPDIR) runs to completion in
+		// between; then the gate opens and A's program reads its files
+		gate := filepath.Join(root, "gate")
+		invA := *inv
+		invA.Env = map[string]string{"VERIF_STUB_DIR": filepath.Join(root, "rec"), "VERIF_STUB_GATE": gate}
+		type res struct {
+			o   *procsim.Outcome
+			err error
+		}
+		ch := make(chan res, 1)
+		go func() {
+			o, err := runInv(e, root, tool, &invA)
+			ch <- res{o, err}
+		}()
+		started := false
+		var early *res
+		for k := 0; k < 4000 && !started && early == nil; k++ {
+			select {
+			case r := <-ch:
+				early = &r
+			default:
+				if _, serr := os.Stat(filepath.Join(root, "rec", "argv")); serr == nil {
+					started = true
+				} else {
+					time.Sleep(5 * time.Millisecond)
+				}
+			}
+		}
+		if started {
+			_ = os.MkdirAll(filepath.Join(root, "recB"), 0o755)
+			invB := *inv
+			invB.Args = c.Rival
+			invB.Env = map[string]string{"VERIF_STUB_DIR": filepath.Join(root, "recB")}
+			if _, berr := runInv(e, root, tool, &invB); berr != nil {
+				_ = os.WriteFile(gate, nil, 0o644)
+				<-ch
+				return nil, berr
+			}
+			obs.RivalRan = true
+		}
+		_ = os.WriteFile(gate, nil, 0o644)
+		if early == nil {
+			r := <-ch
+			early = &r
+		}
+		out, err = early.o, early.err
+	} else {
+		out, err = runInv(e, root, tool, inv)
+	}
 	if err != nil {
 		return nil, err
 	}
@@ -368,6 +435,9 @@ func RunC20(e *Env) (int, error) {
 		ev.Eval(key)
 		ev.Count("wrapper."+c.Wrapper, 1)
 		ev.Count("resolvable_arguments", int64(obs.Resolvable))
+		if obs.RivalRan {
+			ev.Count("interleaved_rival_invocations", 1)
+		}
 		if obs.RefFailed {
 			ev.Count("runs_with_failing_file_argument", 1)
 		}
@@ -408,7 +478,7 @@ func RunC20(e *Env) (int, error) {
 	}
 	t0 := time.Now()
 	viol, err := e.Drive(n, fn, finish)
-	ev.Coverage["rule"] = "each run builds a directory with a layer chain (a, a.b), single layers in json/yaml/toml and in a sub-directory, layers whose evaluation fails ($required, dangling reference, broken syntax), non-bkl files and unsupported extensions; draws an argument vector of 0-8 arguments (flags, --opt=value incl. values that look like layer names, words, existing layers, virtual names, unsupported extensions, failing layers, odd spellings) and at most one fault (layer deleted / corrupted / openat EIO, TMPDIR missing / a file); runs bklb through the symlink stubb or kubectl-bkl with a recording stand-in as the wrapped program on PATH; oracle = argc, order and argv[0] preserved; non-resolvable arguments byte-identical; resolvable ones replaced by a regular file whose bytes equal the stock `bkl <arg>` stdout in the same world; if any reference evaluation fails the stand-in must not have run and the status is non-zero; non-trivial = at least one resolvable argument; distinct = canonical case"
+	ev.Coverage["rule"] = "each run builds a directory with a layer chain (a, a.b), single layers in json/yaml/toml and in a sub-directory, layers whose evaluation fails ($required, dangling reference, broken syntax), non-bkl files and unsupported extensions; draws an argument vector of 0-8 arguments (flags, --opt=value incl. values that look like layer names, words, existing layers, virtual names, unsupported extensions, failing layers, odd spellings) and at most one fault (layer deleted / corrupted / openat EIO, TMPDIR missing / a file), or — in 6% of the runs — a rival: a second, failing invocation of the same wrapper under the same TMPDIR that runs to completion while the first one's wrapped program has started but not yet read its files (the stand-in waits at a gate the simulation opens); runs bklb through the symlink stubb or kubectl-bkl with a recording stand-in as the wrapped program on PATH; oracle = argc, order and argv[0] preserved; non-resolvable arguments byte-identical; resolvable ones replaced by a regular file whose bytes equal the stock `bkl <arg>` stdout in the same world; if any reference evaluation fails the stand-in must not have run and the status is non-zero; non-trivial = at least one resolvable argument; distinct = canonical case"
 	ev.Coverage["loop_seconds"] = time.Since(t0).Seconds()
 	ev.Assumptions = []string{
 		"temp file names are not compared",
